@@ -3,6 +3,7 @@ Model: coq/theories/Kernel/Ret.v; harness: harness/c/c05_ret.c.  M2 handshake sc
 held at a gate) for every return kind / spawn variant, M4 team trees with scripted completion orders."""
 import json
 from .. import core
+from . import _gen
 
 M60 = 1 << 60
 M64 = 1 << 64
@@ -213,6 +214,7 @@ CORPUS = [dict(t="V", kind="a", variant=0, shep=0, prefull=1, value=M64 - 1),
 def run(ctx):
     rng = ctx.rng
     quick = ctx.tier == "quick"
+    _gen.regen(ctx, ["Int60"])      # Gen/*.v regenerated from the source + Properties_Gen_*.v (tools/ctrans.py)
     pr = ctx.coq_properties("Properties/Properties_C05.v")
     ok, log = ctx.coq_make(["theories/Kernel/RetExtract.vo"])
     if not ok:
